@@ -335,9 +335,20 @@ func (u *UnitsDefinition) handleParseMultiplier(
 				Message: fmt.Sprintf("Failed to parse number as int: %s", result),
 			}
 		}
-		floatNumber += float64(i * multiplier)
+		if i > math.MaxInt64/multiplier {
+			return intNumber, floatNumber, isFloat, BadArgumentError{
+				Message: fmt.Sprintf("Number is too large: %s", result),
+			}
+		}
+		product := i * multiplier
+		floatNumber += float64(product)
 		if !isFloat {
-			intNumber += i * multiplier
+			if intNumber > math.MaxInt64-product {
+				return intNumber, floatNumber, isFloat, BadArgumentError{
+					Message: fmt.Sprintf("Number is too large for a 64-bit integer: %s", result),
+				}
+			}
+			intNumber += product
 		}
 	}
 	return intNumber, floatNumber, isFloat, nil
